@@ -709,6 +709,10 @@ class Prettier:
 			フォーマット文字列
 		"""
 		pretty_patterns = ' '.join([cls._pretty_pattern_entry(pattern) for pattern in patterns.entries])
+		# XXX 要素が1つのリピートなしグループは、文法上の括弧のみのグループ(`(expr)`)を表すため括弧を復元
+		if patterns.rep == Repeators.NoRepeat and len(patterns.entries) == 1:
+			return f'({pretty_patterns})'
+
 		return cls._deco_repeat(pretty_patterns, patterns.rep)
 
 	@classmethod
